@@ -11,6 +11,7 @@ the code's clauses on each run.
 -/
 import AioMySensors.Properties.C01
 import AioMySensors.Lemmas.Mqtt
+import AioMySensors.Lemmas.MqttObject
 
 namespace AioMySensors.C18
 open AioMySensors AioMySensors.Mqtt
@@ -373,5 +374,369 @@ example : (tRun {} [.read, .broker (.message "p/1/2/1/0/2".toList [0xff, 0xfe]),
 
 example : disconnect .waiting (.raised .MqttError) = .ok := by decide
 example : disconnect (taskRun .waiting [.mqttError]).1 .ok = .ok := by decide
+
+/-! ### The client object: connect, disconnect, connect again
+
+`Model/MqttObject.lean`: one `MQTTClient` with its fields `_client`, `_incoming_task` and the receive
+queue created in `__init__`, under any sequence of `connect` / `disconnect` / broker events / `read` /
+`write` / `_subscribe` calls with any outcome of the aiomqtt calls involved.  The theorems above are
+about the pieces; these are about the object that lives across connections. -/
+
+/-- **The code's suppress clauses** of `_disconnect` (generated `Gen.excMqttDisconnect`): the first
+absorbs the cancellation of the awaited task, the second `MqttError` from `__aexit__`. -/
+theorem disconnect_clauses : DiscClauses := ⟨by decide, by decide⟩
+
+/-- What aiomqtt's `__aenter__` / `__aexit__` / `subscribe` / `publish` do in the property's fault
+model: return, or raise `MqttError`. -/
+def Listed (o : Outcome) : Prop := o = .ok ∨ o = .raised .MqttError
+
+/-- Every state any history reaches: a task only together with a client, and only in a state the
+receive task can be in. -/
+theorem object_invariant (ops : List OOp) : OInv (oRun {} ops) :=
+  oRun_inv incoming_clauses disconnect_clauses OInv.init ops
+
+/-- **One connection of the object is the transport of the theorems above**: while connected, broker
+events and reads move the object's task and queue exactly as `tRun` does, so `transport_fifo`,
+`never_deaf*` and `disconnect_clean` speak about every single connection of the object. -/
+theorem session_is_transport (s : OState) (t : TaskState) (ht : s.task = some t) (body : List TOp) :
+    oRun s (body.map liftTOp) =
+      { client := s.client, task := some (tRun { task := t, q := s.q } body).task,
+        q := (tRun { task := t, q := s.q } body).q } :=
+  oRun_body s t ht body
+
+/-- **`disconnect` does not raise, whatever came before** (any number of earlier connections, failed
+connects, misuse, broker errors, undecodable payloads, reads pending or not): whenever the object holds
+a receive task, `disconnect` returns — with `__aexit__` returning or raising `MqttError` — and leaves
+neither client nor task, and the queue as it was. -/
+theorem object_disconnect_clean (ops : List OOp) (aexit : Outcome) (ha : Listed aexit)
+    (hconn : (oRun {} ops).task.isSome = true) :
+    oStep (oRun {} ops) (.disconnect aexit) =
+      ({ client := false, task := none, q := (oRun {} ops).q }, .done) := by
+  exact oStep_disconnect_connected incoming_clauses disconnect_clauses (object_invariant ops) hconn ha
+
+/-- **No task and no client after a successful `disconnect`** — from any state at all, so in particular
+after every history. -/
+theorem no_task_after_disconnect (s : OState) (aexit : Outcome)
+    (h : (oStep s (.disconnect aexit)).2 = .done) :
+    (oStep s (.disconnect aexit)).1.client = false ∧ (oStep s (.disconnect aexit)).1.task = none := by
+  simp only [oStep] at h ⊢
+  apply oDisconnect_ok
+  cases hr : (oDisconnect s aexit).2 with
+  | ok => rfl
+  | raised c => simp [hr, ORes.ofOutcome] at h
+
+/-- **Reconnect.** After any history that ends with a successful `disconnect` the object holds neither
+client nor task, and `connect` does exactly what it does on a new object: the same result for every
+outcome of `__aenter__`, the subscriptions and the clean-up, and the same client and task fields; the
+queue is still the one from before. -/
+theorem reconnect_ok (ops : List OOp) (aexit : Outcome)
+    (hd : (oStep (oRun {} ops) (.disconnect aexit)).2 = .done) :
+    let s := (oStep (oRun {} ops) (.disconnect aexit)).1
+    s.client = false ∧ s.task = none ∧ s.q = (oRun {} ops).q ∧
+    ∀ aenter subs ax,
+      (oStep s (.connect aenter subs ax)).2 = (oStep {} (.connect aenter subs ax)).2 ∧
+      (oStep s (.connect aenter subs ax)).1.client = (oStep {} (.connect aenter subs ax)).1.client ∧
+      (oStep s (.connect aenter subs ax)).1.task = (oStep {} (.connect aenter subs ax)).1.task ∧
+      (oStep s (.connect aenter subs ax)).1.q = (oRun {} ops).q := by
+  intro s
+  obtain ⟨hc, ht⟩ := no_task_after_disconnect _ aexit hd
+  have hinv := object_invariant ops
+  have hq : s.q = (oRun {} ops).q := (oStep_q_lifecycle incoming_clauses disconnect_clauses hinv).1 aexit
+  have hinv' : OInv s := oStep_inv incoming_clauses disconnect_clauses hinv _
+  refine ⟨hc, ht, hq, ?_⟩
+  intro aenter subs ax
+  obtain ⟨h1, h2, h3⟩ := oConnect_of_clean hc ht aenter subs ax
+  refine ⟨?_, h2, h3, ?_⟩
+  · exact congrArg ORes.ofUnit h1
+  · rw [(oStep_q_lifecycle incoming_clauses disconnect_clauses hinv').2 aenter subs ax, hq]
+
+/-- In particular: with a healthy broker the second (third, …) `connect` on the same object succeeds
+and the receive task is listening again. -/
+theorem reconnect_succeeds (ops : List OOp) (aexit : Outcome)
+    (hd : (oStep (oRun {} ops) (.disconnect aexit)).2 = .done) (n : Nat) (ax : Outcome) :
+    let s := (oStep (oRun {} ops) (.disconnect aexit)).1
+    (oStep s (.connect .ok (List.replicate n .ok) ax)).2 = .done ∧
+    (oStep s (.connect .ok (List.replicate n .ok) ax)).1.client = true ∧
+    (oStep s (.connect .ok (List.replicate n .ok) ax)).1.task = some .waiting := by
+  intro s
+  obtain ⟨_, _, _, h⟩ := reconnect_ok ops aexit hd
+  obtain ⟨h1, h2, h3, _⟩ := h .ok (List.replicate n .ok) ax
+  have h0 : oStep {} (.connect .ok (List.replicate n .ok) ax) =
+      ({ client := true, task := some .waiting, q := {} }, .done) := by
+    simp [oStep, oConnect, connect_oks, ORes.ofUnit]
+  rw [h0] at h1 h2 h3
+  exact ⟨h1, h2, h3⟩
+
+/-- **A failed `connect` leaves no task.**  From an object without client and task (the only states in
+which `connect` gets past its guard) a `connect` that raises — at the broker connection, at a
+subscription, or in the clean-up after a failed subscription — leaves `_incoming_task` unset, whatever
+the aiomqtt calls raise. -/
+theorem no_task_after_failed_connect (s : OState) (hs : Clean s) (aenter : Outcome) (subs : List Outcome)
+    (ax : Outcome) (hf : (oStep s (.connect aenter subs ax)).2 ≠ .done) :
+    (oStep s (.connect aenter subs ax)).1.task = none := by
+  simp only [oStep] at hf ⊢
+  rcases oConnect_clean incoming_clauses disconnect_clauses hs.1 hs.2 aenter subs ax with
+    ⟨t, _, e⟩ | ⟨_, _, _, _, e⟩ | ⟨_, _, _, e⟩
+  · rw [e] at hf; simp [ORes.ofUnit] at hf
+  · rw [e]
+  · rw [e]
+
+/-- **A failed subscription leaves nothing behind** (fix dc58ea8): `__aenter__` succeeded, a
+subscription did not, `__aexit__` in the clean-up returns or raises `MqttError` — the call raises what
+the subscription raised (`TransportError` for `MqttError`), neither client nor task remains, the queue
+is untouched, and the object can connect again. -/
+theorem failed_subscription_leaves_nothing (s : OState) (hs : Clean s) (subs : List Outcome) (ax : Outcome)
+    (hax : Listed ax) (e : MqttExn) (hfail : connect .ok subs = .error e) :
+    oStep s (.connect .ok subs ax) = ({ client := false, task := none, q := s.q }, .raised e) := by
+  have hcv : convert (clause Gen.excMqttConnect 0) MqttExn.transportError .ok = .ok () := rfl
+  rcases oConnect_clean incoming_clauses disconnect_clauses hs.1 hs.2 .ok subs ax with
+    ⟨t, h, _⟩ | ⟨_, _, _, h, _⟩ | ⟨e', h, _, hr⟩
+  · rw [hfail] at h; cases h
+  · rw [hcv] at h; cases h
+  · rw [hfail] at h
+    cases h
+    simp only [oStep, hr, suppress_aexit disconnect_clauses hax]
+    rfl
+
+/-- **Observation (not a clause of the property): a failed broker connection leaves `_client` set.**
+`_connect` assigns `self._client` before it awaits `__aenter__` and nothing resets it when that raises.
+No task exists, but the object is no longer in the state of a new one. -/
+theorem failed_broker_connect_keeps_client (s : OState) (hs : Clean s) (c : PyExn) (subs : List Outcome)
+    (ax : Outcome) :
+    (oStep s (.connect (.raised c) subs ax)).1 = { client := true, task := none, q := s.q } ∧
+    (oStep s (.connect (.raised c) subs ax)).2 =
+      .raised (if pyCaught c (clause Gen.excMqttConnect 0) then .transportError else .foreign c) := by
+  obtain ⟨c0, t0, q0⟩ := s
+  obtain ⟨hc, ht⟩ := hs
+  simp only at hc ht
+  subst hc ht
+  cases hp : pyCaught c (clause Gen.excMqttConnect 0) <;>
+    simp [oStep, oConnect, connect, convert, hp, ORes.ofUnit]
+
+/-- …and from there every later `connect` and every later `disconnect` on that object is the misuse
+`RuntimeError`, for ever: the state with a client and without a task is closed under all operations. -/
+theorem stuck_after_failed_broker_connect (s : OState) (hc : s.client = true) (ht : s.task = none)
+    (ops : List OOp) :
+    (oRun s ops).client = true ∧ (oRun s ops).task = none ∧
+    (∀ aenter subs ax, (oStep (oRun s ops) (.connect aenter subs ax)).2 = .raised misuse) ∧
+    (∀ aexit, (oStep (oRun s ops) (.disconnect aexit)).2 = .raised misuse) := by
+  induction ops generalizing s with
+  | nil =>
+    refine ⟨hc, ht, ?_, ?_⟩
+    · intro aenter subs ax
+      simp only [oRun, List.foldl_nil, oStep, oConnect_guard (Or.inl hc)]; rfl
+    · intro aexit
+      simp only [oRun, List.foldl_nil, oStep, oDisconnect_guard (Or.inr ht)]; rfl
+  | cons op ops ih =>
+    rw [oRun_cons]
+    apply ih
+    · cases op <;> simp only [oStep, oConnect_guard (Or.inl hc), oDisconnect_guard (Or.inr ht), ht, hc]
+    · cases op <;> simp only [oStep, oConnect_guard (Or.inl hc), oDisconnect_guard (Or.inr ht), ht]
+
+/-- **The guards** (outside the property; they pin what the code raises on misuse, state untouched):
+`connect` while a client or a task is held, `disconnect` without a client or without a task, `write` of
+a publishable line and `_subscribe` without a client — all `RuntimeError`; a line that cannot be
+published is the `ValueError` of the parser whether connected or not. -/
+theorem misuse_is_runtime_error (s : OState) :
+    (∀ aenter subs ax, s.client = true ∨ s.task.isSome = true →
+      oStep s (.connect aenter subs ax) = (s, .raised (.foreign .RuntimeError))) ∧
+    (∀ aexit, s.client = false ∨ s.task = none →
+      oStep s (.disconnect aexit) = (s, .raised (.foreign .RuntimeError))) ∧
+    (∀ pre line pub, s.client = false → toTopic pre line ≠ none →
+      oStep s (.write pre line pub) = (s, .raised (.foreign .RuntimeError))) ∧
+    (∀ pre line pub, toTopic pre line = none →
+      oStep s (.write pre line pub) = (s, .raised (.foreign .ValueError))) ∧
+    (∀ sub, s.client = false → oStep s (.subscribe sub) = (s, .raised (.foreign .RuntimeError))) := by
+  refine ⟨?_, ?_, ?_, ?_, ?_⟩
+  · intro aenter subs ax h
+    simp only [oStep, oConnect_guard h]; rfl
+  · intro aexit h
+    simp only [oStep, oDisconnect_guard h]; rfl
+  · intro pre line pub hc hl
+    cases ht : toTopic pre line with
+    | none => exact absurd ht hl
+    | some r => simp [oStep, oWrite, ht, hc, misuse]
+  · intro pre line pub hl
+    simp [oStep, oWrite, hl]
+  · intro sub hc
+    simp [oStep, oSubscribe, hc, ORes.ofUnit, misuse]
+
+/-- While connected, `write` is the `write` of the theorems above (`write_topic`, `write_outcome`). -/
+theorem write_when_connected (s : OState) (hc : s.client = true) (pre line : Str) (pub : Outcome) :
+    (oStep s (.write pre line pub)).2 =
+      match write pre line pub with
+      | .ok r => .published r.1 r.2.1 r.2.2
+      | .error e => .raised e := by
+  simp only [oStep, oWrite, hc, if_true]
+  cases ht : toTopic pre line with
+  | none => simp [write, ht]
+  | some r => rfl
+
+/-! ### The queue belongs to the object, not to a connection -/
+
+/-- **`disconnect` and `connect` do not touch the queue** — after every history, for every outcome of
+either call (also a raising one): what was received and not yet read, the reads that are blocked and the
+results already handed out are exactly what they were. -/
+theorem queue_survives_disconnect (ops : List OOp) (aexit aenter ax : Outcome) (subs : List Outcome) :
+    let s := oRun {} ops
+    (oStep s (.disconnect aexit)).1.q = s.q ∧
+    (oStep s (.connect aenter subs ax)).1.q = s.q ∧
+    (oRun s [.disconnect aexit, .connect aenter subs ax]).q = s.q := by
+  intro s
+  have hinv := object_invariant ops
+  have h1 := (oStep_q_lifecycle incoming_clauses disconnect_clauses hinv).1 aexit
+  have h2 := (oStep_q_lifecycle incoming_clauses disconnect_clauses hinv).2 aenter subs ax
+  have hinv' : OInv (oStep s (.disconnect aexit)).1 := oStep_inv incoming_clauses disconnect_clauses hinv _
+  have h3 := (oStep_q_lifecycle incoming_clauses disconnect_clauses hinv').2 aenter subs ax
+  refine ⟨h1, h2, ?_⟩
+  show (oStep (oStep s (.disconnect aexit)).1 (.connect aenter subs ax)).1.q = s.q
+  rw [h3, h1]
+
+/-- **Items received and not yet read are still delivered after a disconnect (and a reconnect)**: `k`
+reads after it return the first `k` unread items in arrival order, each once; the rest stays queued. -/
+theorem unread_items_delivered_after_disconnect (ops : List OOp) (aexit aenter ax : Outcome)
+    (subs : List Outcome) (k : Nat) :
+    let s := oRun {} ops
+    let s' := oRun s ([.disconnect aexit, .connect aenter subs ax] ++ List.replicate k .read)
+    let s'' := oRun s (.disconnect aexit :: List.replicate k .read)
+    s'.q.delivered = s.q.delivered ++ s.q.queue.take k ∧ s'.q.queue = s.q.queue.drop k ∧
+    s''.q.delivered = s.q.delivered ++ s.q.queue.take k ∧ s''.q.queue = s.q.queue.drop k := by
+  intro s s' s''
+  obtain ⟨h1, _, h3⟩ := queue_survives_disconnect ops aexit aenter ax subs
+  have e' : s'.q = qRun s.q (List.replicate k .read) := by
+    show (oRun s _).q = _
+    rw [oRun_append, oRun_reads, h3]
+  have e'' : s''.q = qRun s.q (List.replicate k .read) := by
+    show (oRun s _).q = _
+    rw [oRun_cons, oRun_reads, h1]
+  obtain ⟨q1, q2⟩ := qRun_reads s.q k
+  rw [e', e'']
+  exact ⟨q1, q2, q1, q2⟩
+
+/-- **A read that is waiting stays waiting across a reconnect and is served by the next connection**:
+`n + 1` reads blocked, the object connected; after `disconnect`, `connect` and one broker message, the
+oldest of them has that message (or the decode error in its place) and `n` are still blocked. -/
+theorem waiting_read_served_on_next_connection (ops : List OOp) (aexit : Outcome) (ha : Listed aexit)
+    (hconn : (oRun {} ops).task.isSome = true) (n : Nat) (hw : (oRun {} ops).q.waiting = n + 1)
+    (nsubs : Nat) (ax : Outcome) (topic : Str) (payload : List Nat) :
+    let s := oRun {} ops
+    let s' := oRun s [.disconnect aexit, .connect .ok (List.replicate nsubs .ok) ax,
+      .broker (.message topic payload)]
+    (oStep s (.disconnect aexit)).1.q.waiting = n + 1 ∧
+    s'.q.delivered = s.q.delivered ++ [itemOf (topic, payload)] ∧ s'.q.waiting = n ∧ s'.q.queue = [] ∧
+    s'.task = some .waiting := by
+  intro s s'
+  have hqi := oRun_qinv (s := {}) QInv.init ops
+  have hempty : s.q.queue = [] := hqi.idle (by show 0 < (oRun {} ops).q.waiting; omega)
+  have hdisc := object_disconnect_clean ops aexit ha hconn
+  have hs' : s' = _ := served_on_next_connection incoming_clauses disconnect_clauses (object_invariant ops)
+    hconn ha hw hempty nsubs ax topic payload
+  refine ⟨?_, ?_, ?_, ?_, ?_⟩
+  · rw [show oStep s (.disconnect aexit) = _ from hdisc]; exact hw
+  · rw [hs']
+  · rw [hs']
+  · rw [hs']; exact hempty
+  · rw [hs']
+
+/-- **FIFO, exactly once, across connections.**  For every history of one object — any number of
+connect / disconnect cycles, failed connects, misuse, broker events, reads in any interleaving, reads
+pending from one connection into the next, unread items at a disconnect: what has been handed out
+followed by what is still queued is exactly what the receive tasks queued over the whole history, in
+order (nothing lost, nothing repeated); the number of results is `min reads arrivals`; the other reads
+are blocked. -/
+theorem fifo_exactly_once_across_sessions (ops : List OOp) :
+    (oRun {} ops).q.delivered ++ (oRun {} ops).q.queue = oArrivals {} ops ∧
+    (oRun {} ops).q.delivered.length = min (oReads ops) (oArrivals {} ops).length ∧
+    (oRun {} ops).q.waiting = oReads ops - (oArrivals {} ops).length := by
+  have h := oRun_qinv (s := {}) QInv.init ops
+  simp only [List.nil_append, Nat.zero_add] at h
+  exact ⟨h.all, h.delivered_length.1, h.delivered_length.2⟩
+
+/-- The k-th read of the object returns the k-th arrival, whichever connections they fall into. -/
+theorem kth_read_across_sessions (ops : List OOp) (k : Nat) (hr : k < oReads ops)
+    (ha : k < (oArrivals {} ops).length) :
+    (oRun {} ops).q.delivered[k]? = (oArrivals {} ops)[k]? := by
+  obtain ⟨h1, h2, _⟩ := fifo_exactly_once_across_sessions ops
+  have hk : k < (oRun {} ops).q.delivered.length := by omega
+  rw [← h1, List.getElem?_append_left hk]
+
+/-- A result handed out stays what it was, whatever happens to the object later. -/
+theorem read_results_stable_across_sessions (ops more : List OOp) :
+    (oRun {} ops).q.delivered <+: (oRun {} (ops ++ more)).q.delivered := by
+  rw [oRun_append]
+  exact oRun_delivered_prefix _ _
+
+/-- Nothing arrives without a connection: a broker event reaches the queue only through a receive task
+the object holds. -/
+theorem no_arrival_without_connection (s : OState) (ht : s.task = none) (e : Evt) :
+    oStep s (.broker e) = (s, .done) ∧ oArrive s (.broker e) = [] := by
+  simp [oStep, oArrive, ht]
+
+/-- **…spelled out for histories made of whole connections.**  Any number of connections on one
+object, each `connect` (healthy broker) → broker events and reads in any interleaving → `disconnect`
+(`__aexit__` returning or raising `MqttError`), with reads also issued between connections: the arrivals
+of the whole history are the arrivals of the first connection, then of the second, … — each the task run
+of `never_deaf` / `messages_all_queued` over that connection's events — and they are handed to the reads
+in that order, each once; the object ends with neither client nor task. -/
+theorem fifo_exactly_once_whole_sessions (segs : List Seg) (hok : ∀ seg ∈ segs, seg.AexitOK) :
+    let s := oRun {} (segOps segs)
+    s.q.delivered ++ s.q.queue = segArrivals segs ∧
+    s.q.delivered.length = min (segReads segs) (segArrivals segs).length ∧
+    s.q.waiting = segReads segs - (segArrivals segs).length ∧
+    s.client = false ∧ s.task = none := by
+  intro s
+  obtain ⟨hclean, harr, hreads⟩ :=
+    segs_run incoming_clauses disconnect_clauses (s := {}) ⟨rfl, rfl⟩ segs hok
+  obtain ⟨h1, h2, h3⟩ := fifo_exactly_once_across_sessions (segOps segs)
+  rw [harr, hreads] at h2 h3
+  rw [harr] at h1
+  exact ⟨h1, h2, h3, hclean.1, hclean.2⟩
+
+/-! ### Non-vacuity (the object) -/
+
+/-- Two connections on one object; a message received in the first and not read before the disconnect, a
+read issued while disconnected, a read pending into the second connection, `__aexit__` raising once. -/
+example : (oRun {} [.connect .ok [.ok, .ok, .ok, .ok, .ok] .ok,
+      .broker (.message "p/1/2/1/0/2".toList [0x6f, 0x6e]),
+      .disconnect (.raised .MqttError), .read, .read,
+      .connect .ok [.ok, .ok, .ok, .ok, .ok] .ok,
+      .broker (.message "p/1/2/1/0/2".toList [0xff]),
+      .disconnect .ok]) =
+    { client := false, task := none,
+      q := { queue := [], waiting := 0, delivered := [.msg "1;2;1;0;2;on".toList, .err] } } := by decide
+
+/-- The hypotheses of `reconnect_ok` / `object_disconnect_clean` are met after a broker error. -/
+example : (oStep (oRun {} [.connect .ok [.ok] .ok, .broker .mqttError]) (.disconnect .ok)).2 = .done := by decide
+
+example : (oRun {} [.connect .ok [.ok] .ok, .broker .mqttError]).task.isSome = true := by decide
+
+/-- A waiting read with the object connected (hypotheses of `waiting_read_served_on_next_connection`). -/
+example : (oRun {} [.connect .ok [.ok] .ok, .read]).q.waiting = 0 + 1 ∧
+    (oRun {} [.connect .ok [.ok] .ok, .read]).task.isSome = true := by decide
+
+/-- The third subscription fails: `TransportError`, nothing left, and the next `connect` succeeds. -/
+example : oResults {} [.connect .ok [.ok, .ok, .raised .MqttError, .ok, .ok] .ok, .connect .ok [.ok] .ok] =
+    [.raised .transportError, .done] := by decide
+
+example : connect .ok [.ok, .ok, .raised .MqttError, .ok, .ok] = .error .transportError := by rfl
+
+/-- The broker connection fails: `TransportError`, and the object is stuck with its client. -/
+example : oResults {} [.connect (.raised .MqttError) [] .ok, .connect .ok [.ok] .ok, .disconnect .ok] =
+    [.raised .transportError, .raised misuse, .raised misuse] := by decide
+
+/-- Misuse: `connect` twice, `disconnect` twice, `write` and `_subscribe` on a new object. -/
+example : oResults {} [.write "p".toList "1;2;1;0;2;on".toList .ok, .subscribe .ok, .disconnect .ok,
+      .connect .ok [.ok] .ok, .connect .ok [.ok] .ok, .disconnect .ok, .disconnect .ok,
+      .write "p".toList "1;2;1".toList .ok] =
+    [.raised misuse, .raised misuse, .raised misuse, .done, .raised misuse, .done, .raised misuse,
+     .raised (.foreign .ValueError)] := by decide
+
+/-- A history made of whole connections (hypotheses of `fifo_exactly_once_whole_sessions`). -/
+example : ∀ seg ∈ [Seg.session 5 [.read, .broker (.message "p/1/2/1/0/2".toList [0x6f])] .ok, .idleRead,
+    .session 5 [.broker .mqttError] (.raised .MqttError)], seg.AexitOK := by
+  intro seg h
+  simp only [List.mem_cons, List.not_mem_nil, or_false] at h
+  rcases h with rfl | rfl | rfl <;> simp [Seg.AexitOK]
+
 
 end AioMySensors.C18
